@@ -16,6 +16,7 @@ def run(ctx):
     wd = C.scratch()
     def judge(sess, r):
         return SS.judge(sess, r) + meta_gen.judge_meta(sess, r, model, wd) + meta_gen.judge_datamode_atts(sess, r)
-    gens = [('meta', dict(fn=lambda rng: meta_gen.gen_meta_session(rng), share=1))]
+    gens = [('meta', dict(fn=lambda rng: meta_gen.gen_meta_session(rng), share=1)),
+            ('bigvar', dict(fn=lambda rng: meta_gen.gen_bigvar_meta_session(rng), count=(8, 60)))]
     api_check.run_api_check(ctx, gens, None, n_quick=100, n_thorough=1500, judge=judge,
                             gens_translators=('consts', 'begins'))
